@@ -755,7 +755,8 @@ def generate_once(rng, index, small=False, forced=4):
 		builder.add_plain_struct(force=['optbytes'])
 	if 'union' in features and not symbol_family:
 		# one union, or two unions with their own selectors in ONE struct (each needs its own dummy read and temporary buffer)
-		builder.add_plain_struct(force=['union', 'union'] if builder.chance(1, 2) else ['union'])
+		builder.add_plain_struct(force=['union'])
+		builder.add_plain_struct(force=['union', 'union'])
 	for _ in range(0 if small else rng.randrange(0, 3)):
 		builder.add_plain_struct()
 
